@@ -371,6 +371,10 @@ func (procHarness) Gen(seed uint64, prop, tier string) *simkit.Program {
 		return p
 	}
 	switch prop {
+	case "C17":
+		// retry schedules against a tiny (or absent) outbound request queue
+		p.Cfg["reqcap"] = int64(r.Intn(3))
+		genC14(g)
 	case "C14":
 		genC14(g)
 	case "C13":
